@@ -13,7 +13,7 @@ EXPLANATION = (
     'its staging path to transfer_file_from_remote, which returns Ok only after the stream copy and flush returned Ok and the remote `cat` exited successfully, and '
     'renames only under that Ok edge; (R3) the push command is `cat > STAGE && mv -f STAGE DST [&& touch ..]` with STAGE = DST+".copia-tmp", publication '
     '&&-conditioned on the staging step, and a completeness gate on the staged file before `mv`; (R4) under run_sync_recursive no file content is created at a '
-    'non-staging destination path. (R5) no exclusive create (create_new) on a delivery path unless the leftover is removed first: a staging file left by a killed run must be taken over, or every later run fails. R4 also: a copy target kept in an Option field (staging name, else the final name) is judged where the struct is built - every construction must store Some(staging name). Assumes POSIX rename / mv -f atomicity and && semantics. Not decided: what an actual kill leaves behind; re-run equality.')
+    'non-staging destination path. (R5) no exclusive create (create_new) on a delivery path unless the leftover is removed first: a staging file left by a killed run must be taken over, or every later run fails. R4 also: a copy target kept in an Option field (staging name, else the final name) is judged where the struct is built - every construction must store Some(staging name). Assumes POSIX rename / mv -f atomicity and && semantics. Not decided: what an actual kill leaves behind; re-run equality. (R6) every rename under the recursive sync takes its SOURCE from a staging name (directly or at every call site): a rename that moves away the path the caller later publishes onto leaves the path empty until the publishing rename - reported; a file opened for writing at a staging name is fine.')
 ASSUMPTIONS = ['POSIX rename(2) and `mv -f` within one directory are atomic', 'sh `&&` runs its right side only if the left side exited 0']
 
 STAGING_FN = 'incremental::tmp_path'
